@@ -267,10 +267,14 @@ class Rewriter:
     def __init__(self, src, lo, hi):
         self.src, self.lo, self.hi = src, lo, hi
         self.edits = []   # (tok_i, tok_j, text, rule, origin)  replace tokens [i,j) ; i==j -> insert before i
+        self.swallow = []
         self.log = []
 
-    def replace(self, i, j, text, rule, origin=None):
+    def replace(self, i, j, text, rule, origin=None, swallow=False):
+        """replace tokens [i,j); with swallow=True smaller edits fully inside the span are dropped"""
         self.edits.append((i, j, text, rule, origin))
+        if swallow:
+            self.swallow.append((i, j))
 
     def insert(self, i, text, rule, origin=None):
         self.edits.append((i, i, text, rule, origin))
@@ -284,7 +288,12 @@ class Rewriter:
         # order: by position; insertions before replacements at same index; stable
         def key(e):
             return (e[0], 0 if e[0] == e[1] else 1)
-        eds = sorted(enumerate(self.edits), key=lambda p: (key(p[1]), p[0]))
+        live = []
+        for e in self.edits:
+            if any(a <= e[0] and e[1] <= b and (e[0], e[1]) != (a, b) and not (e[0] == e[1] and e[0] in (a, b)) for a, b in self.swallow):
+                continue
+            live.append(e)
+        eds = sorted(enumerate(live), key=lambda p: (key(p[1]), p[0]))
         eds = [e for _, e in eds]
         # overlap check
         last_end = self.lo
